@@ -278,6 +278,9 @@ class H2Protocol:
                     pass
             elif isinstance(event, h2.events.StreamReset):
                 await self._close_stream(event.stream_id)
+                if event.stream_id in self.stream_buffers:
+                    # Release any application send blocked on flow control
+                    await self.stream_buffers[event.stream_id].close()
                 await self._window_updated(event.stream_id)
                 await self.send(Updated(idle=self.idle))
             elif isinstance(event, h2.events.WindowUpdated):
